@@ -83,7 +83,10 @@ fn gen(seed: u64, idx: u64, _tier: Tier) -> Plan {
     let bursts = 2 + rng.below(6);
     for _ in 0..bursts {
         // bursts smaller than, equal to and larger than the batch size
-        let n = match rng.below(4) {
+        let n = match rng.below(if bs <= 8 { 5 } else { 4 }) {
+            // more than one pass can take (16 batches), then silence: the carry-on path of the
+            // event loop has to finish the rest without a new arrival to wake it
+            4 => 16 * bs + 1 + rng.below(3 * bs as u64 + 2) as u32,
             0 => bs.saturating_sub(1).max(1),
             1 => bs,
             2 => bs + 1 + rng.below(bs as u64 + 3) as u32,
